@@ -375,6 +375,11 @@ func (cv CertValidity) toTimeStruct() (config.CertificateValidity, error) {
 		}
 	}
 
+	//neither a certificate nor the config hash can express a date outside of the years 0..9999
+	if y := out.Until.Year(); y < 0 || y > 9999 {
+		return out, errors.New(`config-v1: validity ends after the year 9999`)
+	}
+
 	return out, nil
 }
 
